@@ -59,9 +59,19 @@ struct Run {
     not_dirs: Vec<String>,
 }
 
-fn execute(cfg: &Cfg, paths: &[String], source: &mut Source) -> Run {
+fn execute(cfg: &Cfg, paths: &[String], pre_removed: bool, source: &mut Source) -> Run {
     let b = build(cfg);
     let root = b.root.clone();
+    if pre_removed {
+        // earlier (not concurrent) life of the same names: created and removed again before the threads start,
+        // so that overlays carry deletion markers for them
+        for p in paths {
+            let _ = at(&root, p).create_dir_all();
+        }
+        for top in ["/a", "/b"] {
+            let _ = at(&root, top).remove_dir_all();
+        }
+    }
     let baton = Baton::new(paths.len());
     let results: Arc<Mutex<Vec<Option<Result<(), String>>>>> = Arc::new(Mutex::new(vec![None; paths.len()]));
     let mut pool = POOL.with(|p| p.borrow_mut().take()).unwrap_or_else(|| Pool::new(4));
@@ -108,6 +118,7 @@ pub fn run_tuple(a: &Args, tag: &'static str, idx: u64, schedules: u64, sweep_ca
     let nthreads = *rng.pick(&[2usize, 2, 3, 4]);
     let depth = if nthreads == 2 { rng.range(1, 4) } else { rng.range(1, 3) };
     let paths = gen_paths(&mut rng, nthreads, depth);
+    let pre_removed = rng.chance(1, 2);
     let mut distinct: BTreeSet<u64> = BTreeSet::new();
     acc.count("tuples", 1);
     let mut judge = |acc: &mut Acc, r: &Run, strategy: &str, distinct: &mut BTreeSet<u64>| -> bool {
@@ -124,7 +135,7 @@ pub fn run_tuple(a: &Args, tag: &'static str, idx: u64, schedules: u64, sweep_ca
             acc.fingerprints.insert(h ^ idx.wrapping_mul(0x9E3779B97F4A7C15));
         }
         let detail = || {
-            J::obj().set("tag", J::s(tag)).set("seed", J::i(a.seed)).set("history", J::i(idx)).set("config", J::s(cfg.desc())).set("paths", J::arr(paths.iter().map(J::s))).set("strategy", J::s(strategy)).set("schedule", J::s(trace_text(&r.trace))).set("decisions", J::s(format!("{:?}", r.decisions))).set("results", J::s(format!("{:?}", r.results)))
+            J::obj().set("tag", J::s(tag)).set("seed", J::i(a.seed)).set("history", J::i(idx)).set("config", J::s(cfg.desc())).set("paths", J::arr(paths.iter().map(J::s))).set("names_created_and_removed_before", J::Bool(pre_removed)).set("strategy", J::s(strategy)).set("schedule", J::s(trace_text(&r.trace))).set("decisions", J::s(format!("{:?}", r.decisions))).set("results", J::s(format!("{:?}", r.results)))
         };
         if let RunEnd::Deadlock(stuck) = &r.end {
             acc.violate(Violation { property: "C17", signature: format!("deadlock|{}", cfg.shape()), summary: format!("threads {:?} never came back from create_dir_all", stuck), detail: detail(), order: idx });
@@ -133,7 +144,7 @@ pub fn run_tuple(a: &Args, tag: &'static str, idx: u64, schedules: u64, sweep_ca
         for (i, res) in r.results.iter().enumerate() {
             if let Some(Err(e)) = res {
                 let kind = e.split(':').next().unwrap_or("").to_string();
-                acc.violate(Violation { property: "C17", signature: format!("call-failed|{}|{}", kind.chars().filter(|c| !c.is_ascii_digit()).take(40).collect::<String>(), cfg.shape()), summary: format!("concurrent create_dir_all({}) of thread {} failed: {} (paths {:?}, schedule {})", paths[i], i, e, paths, trace_text(&r.trace)), detail: detail(), order: idx });
+                acc.violate(Violation { property: "C17", signature: format!("call-failed|{}|{}{}", kind.chars().filter(|c| !c.is_ascii_digit()).take(40).collect::<String>(), cfg.shape(), if pre_removed { "|after-earlier-removal" } else { "" }), summary: format!("concurrent create_dir_all({}) of thread {} failed: {} (paths {:?}, schedule {})", paths[i], i, e, paths, trace_text(&r.trace)), detail: detail(), order: idx });
                 if e.starts_with("PANIC") {
                     acc.violate(Violation { property: "C13", signature: format!("panic|concurrent-create_dir_all|{}", cfg.shape()), summary: e.clone(), detail: detail(), order: idx });
                 }
@@ -150,7 +161,7 @@ pub fn run_tuple(a: &Args, tag: &'static str, idx: u64, schedules: u64, sweep_ca
     let mut complete = false;
     loop {
         let mut src = Source::Script { script: stack.iter().map(|x| x.0).collect(), widths: vec![] };
-        let r = execute(&cfg, &paths, &mut src);
+        let r = execute(&cfg, &paths, pre_removed, &mut src);
         runs += 1;
         if !judge(acc, &r, "sweep", &mut distinct) {
             break;
@@ -180,7 +191,7 @@ pub fn run_tuple(a: &Args, tag: &'static str, idx: u64, schedules: u64, sweep_ca
         for s in 0..schedules {
             let mut srng = Rng::derive(a.seed ^ idx, "c17-sched", s);
             let mut src = if s % 3 == 2 { pct_source(&mut srng, paths.len(), 2, 30) } else { Source::Random(srng) };
-            let r = execute(&cfg, &paths, &mut src);
+            let r = execute(&cfg, &paths, pre_removed, &mut src);
             if !judge(acc, &r, if s % 3 == 2 { "pct" } else { "random" }, &mut distinct) {
                 break;
             }
@@ -265,7 +276,7 @@ pub fn physical_round(a: &Args, idx: u64, acc: &mut Acc) {
 }
 
 pub fn run(a: &Args) -> Acc {
-    let (tuples, schedules, cap) = if a.tier == "thorough" { (a.n(300, 6000), 300, 3000) } else { (a.n(200, 6000), 100, 300) };
+    let (tuples, schedules, cap) = if a.tier == "thorough" { (a.n(300, 6000), 300, 3000) } else { (a.n(150, 6000), 80, 250) };
     let mut acc = par_run(a, "c17", tuples, |a, idx, acc| run_tuple(a, "c17", idx, schedules, cap, acc));
     acc.merge(par_run(a, "c17-phys", a.n(4000, 200000), physical_round));
     acc
